@@ -354,6 +354,12 @@ pub struct Scenario {
     /// in `files`, share one content, and their placeholders are hard links of each other
     #[serde(default)]
     pub hardlinks: Vec<(String, String)>,
+    /// the two names of a hard-linked pair report one device and inode (the placeholders are
+    /// hard links) but stop being one file as soon as one of them is opened for writing - what an
+    /// overlay file system does with hard links of its lower layer ("copy-up"); in the simulated
+    /// file system they are then simply two files with the same initial content
+    #[serde(default)]
+    pub links_copy_up: bool,
     /// paths (among `files`) whose placeholder in the scratch tree is a symbolic link to a
     /// regular placeholder outside the walked directories (a shared unit linked into a project)
     #[serde(default)]
